@@ -1586,7 +1586,12 @@ fn account(sum: &mut Summary, sc: &Scenario, out: &Outcome, seed: u64, case: u64
         // C20 promises exact delivery or a prompt error, not delivery: a stream that reports
         // an error while its peer is alive (seen under heavy loss: a retransmission and the
         // covering ACK both lost, the stream idles out) is an observation, not a violation.
-        if f.sig.contains(":unexpected_error:") || f.sig.contains(":connect_failed:") {
+        // Not so when the faults were finite: exactly one or two datagrams dropped (classes
+        // kth_drop / kth_enum, no random loss, nobody vanished) on an otherwise perfect network,
+        // or no loss at all. Then nothing stands between the stream and delivery but its own
+        // recovery, and an error (or an idle timeout 30 s later) is not "failing promptly".
+        let finite_faults = sc.net.loss_ppm == 0 && sc.net.burst.is_none() && sc.net.drop_kth.len() <= 2;
+        if (f.sig.contains(":unexpected_error:") || f.sig.contains(":connect_failed:")) && !finite_faults {
             let kind = f.sig.splitn(3, ':').nth(2).unwrap_or("error").replace(':', ".");
             sum.count(&format!("c20.observed.{kind}"), 1);
             continue;
